@@ -1815,6 +1815,10 @@ class Data(BaseCartesianData):
                         # then also take into account the subarray slices in this
                         # case.
                         mask = mask[subarray_slices]
+                    else:
+                        # The whole view is used, so the result does not need
+                        # to be padded at the end
+                        subarray_slices = None
 
                     data = self.get_data(cid, view)
 
